@@ -152,34 +152,72 @@ def r13_1_as_trivial(ctx: Ctx, rule: str = "R13.1") -> None:
                 run.ok(rule, inst)
             else:
                 shape_fail(inst, f"{c.name}.as_trivial folds to a constant although its truth depends on the row", fi=f)
-    # zero/one-operand factories
+    # zero/one/many-operand factories: evaluated (the checker's interpreter, nothing is run) on 0..3 operands
     pred = ctx.cls(PREDICATE, "Predicate")
+    from .bounds import Crash, Obj, Oracle, _NeedChoice
+    from .mergeeval import MergeInterp
+
+    refc = ctx.cls(PREDICATE, "PredicateReference")
+    xs = [Obj(refc, tag=t) for t in ("x", "y", "z")]
     for fname, (ident, _a, _p, _s) in (("logical_and", CONNECTIVES["LogicalAnd"]), ("logical_or", CONNECTIVES["LogicalOr"])):
         f = pred.methods.get(fname)
         if f is None:
             raise AnalysisError(f"Predicate.{fname} is missing")
         ctor = "LogicalAnd" if fname == "logical_and" else "LogicalOr"
-        for i, p in enumerate(ctx.paths(f)):
-            inst = f"Predicate.{fname}:path{i}"
-            v = p.value
-            facts = path_facts(p)
-            if has_fact(facts, "TRUTH", ("operands",), False):
-                ok = isinstance(v, ast.Call) and call_attr(v) in ("literal", "PredicateLiteral") and ((v.args and _const(v.args[0]) is ident) or (kw(v, "value") is not None and _const(kw(v, "value")) is ident))
-                if ok:
-                    run.ok(rule, inst)
-                else:
-                    run.fail(rule, inst, f"Predicate.{fname}() with no operands returns `{src(v)}` instead of the literal {ident!r}", fi=f, node=p.node)
-            elif any(fct.kind == "EQ" and fct.polarity and set(fct.args) == {"1", "len(operands)"} for fct in facts):
-                if src(v) == "operands[0]":
-                    run.ok(rule, inst)
-                else:
-                    run.fail(rule, inst, f"Predicate.{fname}(x) returns `{src(v)}` instead of x", fi=f, node=p.node)
+        land_c, lor_c = ctx.cls(PREDICATE, "LogicalAnd"), ctx.cls(PREDICATE, "LogicalOr")
+        cases = [(f"{n}-operands", xs[:n]) for n in range(0, 4)]
+        # operands that are themselves connectives stay what they are: p or (q and r) is not p or q or r
+        cases.append(("nested-and", [xs[0], Obj(land_c, operands=(xs[1], xs[2]))]))
+        cases.append(("nested-or", [Obj(lor_c, operands=(xs[0], xs[1])), xs[2]]))
+        cases.append(("single-nested", [Obj(land_c if fname == "logical_or" else lor_c, operands=(xs[0], xs[1]))]))
+        for label, ops in cases:
+            n = len(ops)
+            inst = f"Predicate.{fname}:{label}"
+            interp = MergeInterp(ctx, Oracle([]), pred.module, {})
+            try:
+                got = interp.call_function(f, None, list(ops), {})
+            except Crash as e:
+                run.fail(rule, inst, f"Predicate.{fname} with {n} operand(s) fails: {e}", fi=f)
+                continue
+            except _NeedChoice:
+                raise AnalysisError(f"Predicate.{fname} depends on a predicate the evaluator cannot decide")
+            if n == 0:
+                ok = isinstance(got, Obj) and got.cls.name == "PredicateLiteral" and got.attrs.get("value") is ident
+                msg = f"Predicate.{fname}() with no operands does not return the literal {ident!r}"
+            elif n == 1:
+                ok = got is ops[0]
+                msg = f"Predicate.{fname}(x) does not return x itself"
             else:
-                ok = isinstance(v, ast.Call) and (dotted(v.func) or "") == ctor and _cargs(v)[:1] == ["operands"]
+                import itertools as _it
+
+                def _val(o, asg):
+                    nm = o.cls.name
+                    if nm == "PredicateReference":
+                        return asg[o.attrs["tag"]]
+                    if nm == "PredicateLiteral":
+                        return bool(o.attrs["value"])
+                    if nm == "LogicalNot":
+                        return not _val(o.attrs["operand"], asg)
+                    vals = [_val(x, asg) for x in o.attrs["operands"]]
+                    return all(vals) if nm == "LogicalAnd" else any(vals)
+
+                def _leaves(o):
+                    if o.cls.name == "PredicateReference":
+                        return [o.attrs["tag"]]
+                    if o.cls.name == "LogicalNot":
+                        return _leaves(o.attrs["operand"])
+                    return [t for x in o.attrs.get("operands", ()) for t in _leaves(x)]
+
+                want = Obj(land_c if fname == "logical_and" else lor_c, operands=tuple(ops))
+                ok = isinstance(got, Obj) and got.cls is not None and got.cls.name in ("LogicalAnd", "LogicalOr", "LogicalNot", "PredicateReference", "PredicateLiteral")
                 if ok:
-                    run.ok(rule, inst)
-                else:
-                    run.fail(rule, inst, f"Predicate.{fname}(...) returns `{src(v)}` instead of {ctor}(operands)", fi=f, node=p.node)
+                    asgs = [dict(zip("xyz", v)) for v in _it.product((False, True), repeat=3)]
+                    ok = all(_val(got, a) == _val(want, a) for a in asgs) and _leaves(got) == _leaves(want)
+                msg = f"Predicate.{fname}({', '.join('<' + o.cls.name + '>' for o in ops)}) is not equivalent to the {'conjunction' if fname == 'logical_and' else 'disjunction'} of its operands in the given order"
+            if ok:
+                run.ok(rule, inst)
+            else:
+                run.fail(rule, inst, msg + f" (got {got!r:.80})", fi=f)
     notf = pred.methods.get("logical_not")
     if notf and all(isinstance(p.value, ast.Call) and (dotted(p.value.func) or "") == "LogicalNot" and _cargs(p.value) == ["self"] for p in ctx.paths(notf)):
         run.ok(rule, "Predicate.logical_not")
